@@ -108,6 +108,10 @@ def last_seg(path):
 
 # --------------------------------------------------------------------------------------
 
+_PS_SCALARS = {'bool', 'u8', 'u16', 'u32', 'u64', 'usize', 'i8', 'i16', 'i32', 'i64', 'isize', 'u128', 'i128'}
+_PS_ENUM = re.compile(r'^(core::result::Result|core::option::Option|core::ops::control_flow::ControlFlow|core::task::poll::Poll)$')
+
+
 class Fn:
     def __init__(self, crate, j, view):
         self.crate = crate
@@ -196,8 +200,11 @@ class Fn:
         return seen
 
     def reachable_ps(self, starts, removed_blocks=(), removed_edges=()):
-        """like reachable(), but path-sensitive in the value of bool locals that are assigned constants (the shape
-        `matches!`/`&&`/`||` compile to): a switch on such a local only follows the edge its known value selects"""
+        """like reachable(), but path-sensitive in what is known about locals along the path: bool / integer locals assigned
+        constants (the shape `matches!`/`&&`/`||` compile to), and enum-typed locals assigned an aggregate of a known variant
+        (Ok(..) / Err(..) / Some(..) built by a spliced helper and then tested by `?` or a match).  A switch on such a local, or on
+        the discriminant read from it, only follows the edge its known value selects.  `Try::branch` maps Ok/Some to Continue and
+        Err/None to Break."""
         removed_blocks = set(removed_blocks)
         removed_edges = set(removed_edges)
         seen = set()
@@ -205,7 +212,7 @@ class Fn:
         work = [(s, frozenset()) for s in starts if s not in removed_blocks]
         while work:
             b, known = work.pop()
-            if (b, known) in seen or len(seen) > 20000:
+            if (b, known) in seen or len(seen) > 40000:
                 continue
             seen.add((b, known))
             out.add(b)
@@ -215,17 +222,33 @@ class Fn:
                     continue
                 l = st['d']['l']
                 rv = st['rv']
-                if rv['k'] == 'use' and rv['a'].get('o') == 'const' and rv['a'].get('t') == 'bool' and rv['a'].get('v') is not None:
+                if rv['k'] == 'use' and rv['a'].get('o') == 'const' and rv['a'].get('v') is not None and rv['a'].get('t') in _PS_SCALARS:
                     k[l] = rv['a']['v']
                 elif rv['k'] == 'use' and rv['a'].get('l') in k and not rv['a'].get('p'):
                     k[l] = k[rv['a']['l']]
+                elif rv['k'] == 'agg' and rv.get('ak') == 'adt' and rv.get('vidx') is not None and _PS_ENUM.match(rv.get('adt') or ''):
+                    k[l] = ('V', rv['adt'], rv['vidx'])
+                elif rv['k'] == 'discr' and not rv['a'].get('p') and isinstance(k.get(rv['a'].get('l')), tuple):
+                    k[l] = k[rv['a']['l']][2]
                 else:
                     k.pop(l, None)
             t = self.blocks[b]['t']
             if t['k'] == 'call' and not t['d']['p']:
-                k.pop(t['d']['l'], None)
+                val = None
+                if t.get('args') and call_matches(t, ['core::ops::try_trait::Try::branch']):
+                    src = k.get(t['args'][0].get('l')) if not t['args'][0].get('p') else None
+                    if isinstance(src, tuple):
+                        if src[1] == 'core::result::Result':
+                            val = ('V', 'core::ops::control_flow::ControlFlow', 0 if src[2] == 0 else 1)
+                        elif src[1] == 'core::option::Option':
+                            val = ('V', 'core::ops::control_flow::ControlFlow', 0 if src[2] == 1 else 1)
+                if val is not None:
+                    k[t['d']['l']] = val
+                else:
+                    k.pop(t['d']['l'], None)
+                # a call given a mutable borrow may change nothing we track (we only track by-value locals assigned whole)
             succs = self.succ(b)
-            if t['k'] == 'switch' and t['a'].get('l') in k and not t['a'].get('p'):
+            if t['k'] == 'switch' and t['a'].get('l') in k and not t['a'].get('p') and not isinstance(k[t['a']['l']], tuple):
                 v = k[t['a']['l']]
                 tgt = None
                 for val, bb2 in t['arms']:
